@@ -694,7 +694,8 @@ func (s *sim) collectDue(i int) {
 		}
 		raw, v, st := c.conn.TakeReply(60 * time.Second)
 		if st != "ok" {
-			s.failed = fmt.Sprintf("client %d: entry of %q applied on its node but no reply arrived (%s)", op.Client, op.Args, st)
+			// "each client receives the reply to its own command"
+			s.replyLost = append(s.replyLost, fmt.Sprintf("client %d: the entry of %q was applied on its node but no reply arrived (%s)", op.Client, op.Args, st))
 			continue
 		}
 		s.step++
